@@ -1,5 +1,6 @@
 import KitProofs.Lemmas.Broadcaster
 import KitProofs.Lemmas.BroadcasterProgress
+import KitProofs.Lemmas.BroadcasterOrder
 /-!
 C11 — events/broadcaster.  Property theorems about the LTS `Kit.Broadcaster` (`KitModel/Broadcaster.lean`).
 `Variant.fixed` models `Close` as repaired (CAS + close(closeCh) before taking the lock);
@@ -93,6 +94,40 @@ theorem exactly_once_common_order {v : Variant} {s : State} (hr : Reach v s) {i 
 example : ∃ (i : Nat) (u : Sub), sampleState.subs[i]? = some u ∧ u.exitClosed = false ∧
     sampleState.closeCh = false ∧ u.delivered.map (·.val) = [8, 7] :=
   ⟨0, _, rfl, by decide, by decide, by decide⟩
+
+/-- The log order respects the order of `Broadcast` calls.  An entry records, at the moment
+`Broadcast` is *called*, the tickets of all `Broadcast` calls that have already *returned*
+(`retBefore := returnedT`, and `bcReturn t` puts `t` into `returnedT`).  If `a` returned before
+`b` was called, `a` is logged strictly before `b`. -/
+theorem log_order_respects_calls {v : Variant} {s : State} (hr : Reach v s) {ka kb : Nat}
+    {a b : Entry} (ha : s.log[ka]? = some a) (hb : s.log[kb]? = some b)
+    (hret : a.ticket ∈ b.retBefore) : ka < kb := by
+  have ht := tinv_reach s hr
+  obtain ⟨k', e', hlt, he', hte⟩ := ht.logged kb b hb a.ticket hret
+  have hnd : (s.log.map (·.ticket)).Nodup := (List.nodup_append.mp ht.nodup).2.1
+  have h1 : (s.log.map (·.ticket))[k']? = some a.ticket := by simp [he', hte]
+  have h2 : (s.log.map (·.ticket))[ka]? = some a.ticket := by simp [ha]
+  have hk : k' < (s.log.map (·.ticket)).length := by
+    simp; exact lt_of_getElem? he'
+  have := (List.getElem?_inj hk hnd).mp (h1.trans h2.symm)
+  omega
+
+/-- `broadcast_order_respects_calls`: if `Broadcast a` returned before `Broadcast b` was called,
+then every subscriber that receives both receives `a` before `b`. -/
+theorem broadcast_order_respects_calls {v : Variant} {s : State} (hr : Reach v s) {i : Nat}
+    {u : Sub} (hi : s.subs[i]? = some u) {pa pb : Nat} {a b : Entry}
+    (ha : u.delivered[pa]? = some a) (hb : u.delivered[pb]? = some b)
+    (hret : a.ticket ∈ b.retBefore) : pa < pb := by
+  have hpos := (exactly_once_common_order hr hi).2.1
+  have := log_order_respects_calls hr (hpos pa a ha) (hpos pb b hb) hret
+  omega
+
+/-- Non-vacuity: in `sampleState` Broadcast(8) (ticket 1) had returned before Broadcast(9)
+(ticket 2) was called, Broadcast(7) (ticket 0) was called first but won the lock second; the first
+subscriber received 8 then 7, and 9 is in its buffer. -/
+example : ∃ a b, sampleState.log[0]? = some a ∧ sampleState.log[2]? = some b ∧
+    a.ticket ∈ b.retBefore ∧ (sampleState.log.map (·.ticket)) = [1, 0, 2] :=
+  ⟨_, _, rfl, rfl, by decide, by decide⟩
 
 /-- `nothing_after_close`: once a `Close` call has returned, no forwarder can deliver anything to
 a subscriber channel (every forwarder has terminated), now or in any later state. -/
